@@ -223,7 +223,12 @@ func (e *Env) fifoRemovedRule(rule string) {
 		}
 		sc := core.Scenario{FieldLoad: e.assumeStream(true), CallResult: func(m *core.Node) (core.AV, bool) {
 			if isStat(m) {
-				return core.TupleAV(core.Top, core.NilAV()), true
+				// the pipe exists - and nothing else does: a streaming output has no file at its path and none in the
+				// temp dir, so a guard that looks at the wrong path (Exists / TempFileExists) does not let the removal happen
+				if isCallSym(e.xargSym(m, 0), fnFifoPath) {
+					return core.TupleAV(core.Top, core.NilAV()), true
+				}
+				return core.TupleAV(core.Top, core.NonNilAV(core.ErrNotExist)), true
 			}
 			return core.Top, false
 		}}
@@ -478,6 +483,129 @@ func (e *Env) c17DrainOnSkip(rule string) {
 			continue
 		}
 		ob.OK(g.Where(n), "exists ⇒ for every streaming in-IP: "+nodeDesc(opens[0])+" ("+trunc(e.xargSym(opens[0], 0).Template(), 60)+")")
+	}
+	// (4) what happens after the open, by scenario on the pipe's fate: the draining part of Execute (goroutine bodies
+	// expanded in place) under "open succeeded" must (a) not end while the pipe still exists - the producer may not even
+	// have opened its end yet, and closing the read end then makes it block forever -, (b) end normally once the pipe is
+	// gone, without a fatal call; an open that finds the pipe already removed (ENOENT) is not an error either; (c) a
+	// WaitGroup that the drainers are counted with is incremented once per drainer, decremented on every path of a
+	// drainer, and waited for before Execute signals Done.
+	obL := r.Ob(rule, "Execute:drain-until-pipe-removed", "a drainer keeps the pipe open while it exists, ends normally when the producing process has removed it, treats an already removed pipe as done, and the drainers are awaited")
+	{
+		isFifoStat := func(m *core.Node) bool {
+			if !isStat(m) {
+				return false
+			}
+			return isCallSym(e.xargSym(m, 0), fnFifoPath)
+		}
+		mk := func(openErr core.AV, pipeExists bool) core.Scenario {
+			return core.Scenario{FieldLoad: e.assumeStream(true), CallResult: func(m *core.Node) (core.AV, bool) {
+				switch {
+				case isOpen(m):
+					return core.TupleAV(core.Top, openErr), true
+				case isFifoStat(m):
+					if pipeExists {
+						return core.TupleAV(core.Top, core.NilAV()), true
+					}
+					return core.TupleAV(core.Top, core.NonNilAV(core.ErrNotExist)), true
+				}
+				return core.Top, false
+			}}
+		}
+		okL := true
+		for _, o := range opens {
+			if o.Kind == core.KAfter {
+				continue
+			}
+			run := func(sc core.Scenario) *core.ScnResult {
+				sc.Start, sc.Result = o, core.TupleAV(core.Top, core.NilAV())
+				return g.Run(sc)
+			}
+			// (a) pipe exists for ever: the drainer never finishes, so Execute cannot return
+			sa := mk(core.NilAV(), true)
+			if w := run(sa).NormalReturn(); w != nil {
+				okL = false
+				obL.Fail(g.Where(o), "after a successful open Execute can return although the pipe still exists: the drainer gives up (and closes its end) before the producing process has removed the pipe - a producer that has not opened its end yet then blocks forever")
+			}
+			// (b) pipe gone: ends normally
+			sb := mk(core.NilAV(), false)
+			rb := run(sb)
+			if rb.NormalReturn() == nil {
+				okL = false
+				obL.Fail(g.Where(o), "after a successful open Execute never returns normally even when the pipe has been removed (a fatal call or an endless loop on the success path)")
+			}
+			// ENOENT at the open: not an error
+			sc := mk(core.NonNilAV(core.ErrNotExist), false)
+			sc.Start, sc.Result = o, core.TupleAV(core.Top, core.NonNilAV(core.ErrNotExist))
+			if g.Run(sc).NormalReturn() == nil {
+				okL = false
+				obL.Fail(g.Where(o), "a pipe that the producing process has already removed (ENOENT at the open) stops the workflow: the producer was skipped or is done, there is nothing to drain")
+			}
+		}
+		// (c) WaitGroup pairing around the drainers
+		var gos []*core.Node
+		for _, n := range g.Nodes {
+			if n.IsGo && n.Kind == core.KCall && n.Inl != nil {
+				for _, o := range opens {
+					for c := o.Ctx; c != nil; c = c.Parent {
+						if c == n.Inl {
+							gos = append(gos, n)
+						}
+					}
+				}
+			}
+		}
+		isAdd := func(m *core.Node) bool { return m.IsCallTo("(*sync.WaitGroup).Add") && m.Kind != core.KAfter }
+		isDone := func(m *core.Node) bool { return m.IsCallTo("(*sync.WaitGroup).Done") && m.Kind != core.KAfter }
+		isWait := func(m *core.Node) bool { return m.IsCallTo("(*sync.WaitGroup).Wait") && m.Kind != core.KAfter }
+		if len(g.Select(isAdd))+len(g.Select(isDone))+len(g.Select(isWait)) > 0 {
+			must := g.Forward(func(n *core.Node) core.Transfer {
+				switch {
+				case isAdd(n):
+					return core.Transfer{Gen: 1}
+				case n.IsGo && n.Kind == core.KCall:
+					return core.Transfer{Kill: 1}
+				}
+				return core.Transfer{}
+			}, true)
+			for _, gn := range gos {
+				if must[gn]&1 == 0 {
+					okL = false
+					obL.Fail(g.Where(gn), "a drainer goroutine is started without a WaitGroup.Add since the previous one: Done then drives the counter negative (panic) or Wait returns too early")
+				}
+				// Done on every path of the drainer, whatever happens to the pipe
+				body := g.FirstNodeOf(gn.Inl, gn.Inl.Fn.Blocks[0])
+				if body != nil {
+					sc := mk(core.Top, false)
+					sc.Start, sc.AtEntry = body, true
+					endOfBody := func(m *core.Node) bool { return m.Kind == core.KRet && m.Ctx == gn.Inl }
+					if g.Run(sc).ReachesAvoiding(endOfBody, isDone) != nil {
+						okL = false
+						obL.Fail(g.Where(gn), "a drainer can finish without WaitGroup.Done: the skipped task then waits forever")
+					}
+				}
+				sc := mk(core.NilAV(), false)
+				sc.Start, sc.AtEntry = gn, true
+				isRetOrDone := func(m *core.Node) bool { return m.Kind == core.KRootRet || a.isDoneSend(m) }
+				if g.Run(sc).ReachesAvoiding(isRetOrDone, func(m *core.Node) bool { return isWait(m) && m.Ctx != gn.Inl }) != nil {
+					// without InlineGo semantics the goroutine's end does not order anything: only Wait does
+					okL = false
+					obL.Fail(g.Where(gn), "Execute can signal Done / return without waiting for the drainers it started")
+				}
+			}
+		}
+		// (d) one drainer per pipe, concurrently: in Execute's own (synchronous) flow no pipe is opened - a drainer
+		// stays as long as its pipe exists, so a second pipe would never be opened while the first producer is still busy
+		if g0 := e.XG(a.execute); g0 != nil {
+			for _, n := range g0.Select(isOpen) {
+				okL = false
+				obL.Fail(g0.Where(n), "the pipes of a task with several streaming inputs are drained one after the other in Execute's own flow: the first drainer does not end while its pipe exists, so the next pipe is not opened - a producer that writes several streams (`tee {os:a} > {os:b}`) blocks forever on the one that is not open yet")
+				break
+			}
+		}
+		if okL {
+			obL.OK(core.FuncName(a.execute), "pipe exists ⇒ drainer stays; pipe removed ⇒ normal end; ENOENT at open ⇒ nothing to do; one concurrent drainer per pipe, counted and awaited")
+		}
 	}
 	// (3) the open cannot block
 	for _, o := range opens {
